@@ -11,18 +11,22 @@ From ZI Require Export Lib.Util Model.Adapt Spec.Pep246.
 
 (* use_c, chain, behaviour,
    (conform-call observable, hook calls observable, provided-check observable,
-    driver-side argument/identity checks ok),
+    read of __conform__ observable, driver-side argument/identity checks ok),
    observed I(obj[, alt]) = (log, outcome)   [an unrecognised result is sent as RaiseE InterpTE0],
    observed I.__adapt__(obj) = (log, result) [None if not observed; unrecognised = Raise InterpTE0] *)
 Definition case_t :=
-  (bool * list lvl * obj * (bool * bool * bool * bool) * (list ev * outcome)
+  (bool * list lvl * obj * (bool * bool * bool * bool * bool) * (list ev * outcome)
    * option (list ev * res (option value)))%type.
 
 (* steps whose execution the driver could not instrument (the body of an unbound __conform__
-   never runs; a real registry hook is a C method and computes providedBy(obj) itself) are dropped
-   from the expected log *)
-Definition visible (vc vh vp : bool) (e : ev) : bool :=
-  match e with EvCallConform => vc | EvHook _ => vh | EvProvided => vp | _ => true end.
+   never runs; a real registry hook is a C method and computes providedBy(obj) itself; an object
+   whose class keeps the generic attribute lookup cannot log attribute reads) are dropped from
+   the expected log *)
+Definition visible (vc vh vp vg : bool) (e : ev) : bool :=
+  match e with
+  | EvCallConform => vc | EvHook _ => vh | EvProvided => vp | EvGetConform => vg
+  | EvCustom _ => true
+  end.
 
 Definition log_eqb := list_eqb ev_eqb.
 
@@ -32,12 +36,12 @@ Definition model_out (c : case_t) : (list ev * outcome) * (list ev * res (option
   if uc then (c_call k o, c_adapt k o) else (py_call k o, py_adapt k o).
 
 Definition check_model (c : case_t) : bool :=
-  let '(uc, chain, o, (vc, vh, vp, _), (olog, oout), oadapt) := c in
+  let '(uc, chain, o, (vc, vh, vp, vg, _), (olog, oout), oadapt) := c in
   let '((mlog, mout), (alog, ares)) := model_out c in
-  log_eqb (filter (visible vc vh vp) mlog) olog && outcome_eqb mout oout
+  log_eqb (filter (visible vc vh vp vg) mlog) olog && outcome_eqb mout oout
   && match oadapt with
      | None => true
-     | Some (l, r) => log_eqb (filter (visible vc vh vp) alog) l && ares_eqb ares r
+     | Some (l, r) => log_eqb (filter (visible vc vh vp vg) alog) l && ares_eqb ares r
      end.
 
 (* what I.__adapt__(obj) must return for a spec verdict *)
@@ -51,13 +55,13 @@ Definition sres_matches (s : sres) (a : res (option value)) : bool :=
   end.
 
 Definition check_spec (c : case_t) : bool :=
-  let '(_, chain, o, (vc, vh, vp, ok), (olog, oout), oadapt) := c in
+  let '(_, chain, o, (vc, vh, vp, vg, ok), (olog, oout), oadapt) := c in
   let (slog, sout) := spec chain o in
   ok
-  && log_eqb (filter (visible vc vh vp) slog) olog && outcome_eqb sout oout
+  && log_eqb (filter (visible vc vh vp vg) slog) olog && outcome_eqb sout oout
   && match oadapt with
      | None => true
      | Some (l, r) =>
          let (alog, ares) := spec_adapt chain o in
-         log_eqb (filter (visible vc vh vp) alog) l && sres_matches ares r
+         log_eqb (filter (visible vc vh vp vg) alog) l && sres_matches ares r
      end.
